@@ -188,13 +188,15 @@ func (ip *Inode) Resize(atxn *alloctxn.AllocTxn, sz uint64) bool {
 		if ip.ShrinkSize < oldsz {
 			ip.ShrinkSize = oldsz
 		}
-	} else {
+	} else if ip.ShrinkSize <= oldsz {
+		// (not while an earlier shrink is still in progress, see above)
 		ip.ShrinkSize = newSz
 	}
 	ip.WriteInode(atxn)
 	if newSz < oldsz {
 		if ip.shrinkFits(atxn, oldsz-newSz) {
-			ip.Shrink(atxn)
+			// Shrink stops when the transaction is full; the rest is for the shrinker
+			doshrink = ip.Shrink(atxn)
 			util.DPrintf(1, "small file delete inside trans\n")
 		} else {
 			doshrink = true
